@@ -389,6 +389,23 @@ def _compress_tiles(
     data = xx.data
     assert is_dask_collection(data)
 
+    # Image is padded to a multiple of 2**levels, which can be whole tiles more than the
+    # data has: add the missing rows/columns so that every tile of the layout has a block
+    _ydim = 0 if (data.ndim == 2 or meta.axis != "SYX") else 1
+    _pad = [(0, 0)] * data.ndim
+    _pad[_ydim] = (0, max(0, meta.shape.y - data.shape[_ydim]))
+    _pad[_ydim + 1] = (0, max(0, meta.shape.x - data.shape[_ydim + 1]))
+    if any(n >= t for (_, n), t in zip(_pad[_ydim : _ydim + 2], meta.tile.yx)):
+        import dask.array as da
+
+        _fill = float(meta.nodata) if isinstance(meta.nodata, str) else meta.nodata
+        data = da.pad(
+            data,
+            _pad,
+            mode="constant",
+            constant_values=0 if _fill is None else _fill,
+        ).astype(data.dtype)
+
     if meta.axis == "SYX":
         src_ydim = 1
         if data.ndim == 2:
